@@ -270,6 +270,12 @@ class MaskCombinator(Generic[R], GenerativeFunction[Mask[R]]):
         args: tuple[Any, ...],
     ) -> tuple[Score, Mask[R]]:
         check, inner_args = args[0], args[1:]
+        if FlagOp.concrete_false(check):
+            # a masked-off invocation makes no choices: there is nothing to assess.
+            return (
+                jnp.zeros(()),
+                Mask(self.gen_fn.__abstract_call__(*inner_args), check),
+            )
         score, retval = self.gen_fn.assess(sample, inner_args)
         return (
             check * score,
